@@ -33,7 +33,7 @@ ASSUMPTIONS = [
     "in all-keys mode at most one non-default key has a candidate in the view that decides (runs where the reference "
     "scanner finds several are discarded as ambiguous: the order of the 254 leftover keys is a heuristic)",
     "settings lists end with a zero index; the over-long User-Agent continuation (C02) is not generated",
-    "XorEncoded stages carry both the end-of-stub marker and a consistent size field and no decoy markers (C09/F-C09-1)",
+    "XorEncoded stages are locatable by marker+size, size only, or marker only (size field off by one); no decoy markers inside the stub (C09/F-C09-1)",
     "PE artifacts (architecture, stamps) are recorded but not judged (C18 is not claimed)",
     "images with more than 24 'ff ff ff' positions inside the end-of-stub marker search range are discarded: detection is quadratic in them (a cost, not a hang)",
 ]
@@ -158,7 +158,9 @@ def generate(rng, tier, index):
         for i, b in enumerate(stub):
             if b == 0xFF:
                 stub[i] = 0xFE
-        plan["xor"] = {"nonce": hx(bytes(rng.getrandbits(8) for _ in range(4))), "stub": hx(bytes(stub) + b"\xff\xff\xff")}
+        variant = rng.choice(["both", "both", "size", "marker"])
+        plan["xor"] = {"nonce": hx(bytes(rng.getrandbits(8) for _ in range(4))),
+                       "stub": hx(bytes(stub) + (b"\xff\xff\xff" if variant != "size" else b"")), "variant": variant}
     return plan
 
 
